@@ -141,6 +141,18 @@ func c12Scenarios(cfg runCfg) []Scenario {
 			}
 			i++
 		}
+		// thresholds above 2^63 of the 64-bit unsigned kinds, over many seeds: about one seed in a hundred finds its first
+		// counterexample as a genuine 64-bit value (not through "overflow to max") and is then minimised by bisection alone
+		if s == 0 {
+			for j := 0; j < cfg.n(400, 10); j++ {
+				if cfg.mine(i) {
+					ki := []int{5, 9}[j%2] // Uint, Uint64
+					th := []string{"uge:9223372036854775815", "uge:9223373136366403585", "uge:13835058055282163719"}[j%3]
+					out = append(out, Scenario{Family: "threshold", Seed: mix(cfg.seed, 12, 9, uint64(j)), K: ki, S: th, X: map[string]string{"plain": "1"}})
+				}
+				i++
+			}
+		}
 		for _, coll := range []string{"slice-int", "slice-uint8", "string", "map"} {
 			for k := 0; k <= 32; k++ {
 				if (k+int(cfg.seed))%step != 0 && k != 0 && k != 32 {
@@ -197,6 +209,9 @@ func c12Run(t *testing.T, sc Scenario, res *Result) {
 		// the usual shape of a property: draw all inputs, then assert - other values are drawn before and/or after the
 		// deciding integer (they do not influence the outcome)
 		extra := int(mix(sc.Seed, 0xe7a) % 4)
+		if sc.X["plain"] == "1" {
+			extra = 0
+		}
 		res.inc(fmt.Sprintf("threshold_extra_draws:%d", extra))
 		body = func(x *X) {
 			if extra&1 != 0 {
